@@ -1,54 +1,8 @@
 (* C04 proofs, part 3: the two renames (commit points), one write-out, histories. *)
 From Coq Require Import List ZArith NArith Bool Arith Lia.
 From GoProbe.Base Require Import CorrLib.
-From GoProbe.C04 Require Import Model Proofs Proofs2.
+From GoProbe.C04 Require Import Model Proofs ProofsCols Proofs2.
 Import ListNotations.
-
-Section Align2.
-Context {A B : Type}.
-Implicit Types (R : dkey -> A -> B -> Prop).
-
-Lemma aligned_weaken R R' (l : list (dkey * A)) (m : list (dkey * B)) :
-  aligned R l m -> (forall x y, In x l -> R (fst x) (snd x) y -> R' (fst x) (snd x) y) -> aligned R' l m.
-Proof.
-  induction 1 as [|x y l m [E H] F IH]; intros W; constructor.
-  - split; auto. apply W; auto. now left.
-  - apply IH. intros; apply W; auto. now right.
-Qed.
-Lemma aligned_upd2 R R' k f g (l : list (dkey * A)) (m : list (dkey * B)) : aligned R l m ->
-  (forall k' a b, R k' a b -> R' k' a b) ->
-  (forall a b, lookup k l = Some a -> lookup k m = Some b -> R k a b -> R' k (f a) (g b)) ->
-  aligned R' (upd k f l) (upd k g m).
-Proof.
-  induction 1 as [|[k1 a1] [k2 b1] l m [E H] F IH]; cbn [upd]; intros W U; [constructor|].
-  cbn in E, H; subst k2. destruct (keqb k k1) eqn:EE.
-  - apply keqb_eq in EE; subst k1. constructor.
-    + split; auto. cbn. apply U; cbn; rewrite ?keqb_refl; auto.
-    + eapply aligned_weaken; eauto.
-  - constructor; [split; cbn; auto|]. apply IH; auto. intros a b La Lb. apply U; cbn; rewrite EE; auto.
-Qed.
-Lemma aligned_upd_l2 R R' k f (l : list (dkey * A)) (m : list (dkey * B)) : ksorted l -> aligned R l m ->
-  (forall k' a b, k' <> k -> R k' a b -> R' k' a b) ->
-  (forall a b, lookup k l = Some a -> R k a b -> R' k (f a) b) ->
-  aligned R' (upd k f l) m.
-Proof.
-  intros S. revert m. induction S as [|k1 a1 l F S IH]; intros m Al W U; inversion Al as [|x [k2 b1] l' m' [E H] Fa]; subst; cbn [upd].
-  - constructor.
-  - cbn in E, H; subst k2. destruct (keqb k k1) eqn:EE.
-    + apply keqb_eq in EE; subst k1. constructor.
-      * split; auto. cbn. apply U; cbn; rewrite ?keqb_refl; auto.
-      * eapply aligned_weaken; eauto. intros x y Hin HR. apply W; auto.
-        rewrite Forall_forall in F. specialize (F _ Hin). intros EQ. rewrite EQ in F. apply kltb_neq in F. rewrite keqb_refl in F. discriminate.
-    + constructor.
-      * split; cbn; auto. apply W; auto. apply keqb_neq in EE. auto.
-      * apply IH; auto. intros a b La. apply U; cbn; rewrite EE; auto.
-Qed.
-End Align2.
-
-Lemma ksorted_filter {A} (P : dkey * A -> bool) l : ksorted l -> ksorted (filter P l).
-Proof.
-  induction 1 as [|k v l F S IH]; cbn; [constructor|]. destruct (P (k, v)); auto. constructor; auto. now apply Forall_filter.
-Qed.
 
 (* what Inv says about the day directory of a key *)
 Lemma inv_lookup st s a k : InvS st s a ->
@@ -72,12 +26,14 @@ Definition cur_meta (a : adb) (k : dkey) : meta := match lookup k a with Some bl
 Lemma step_commit s a p n d w :
   Inv s a -> day_at s p = Some d -> dp_key p = w_key w -> put_ok a w = true ->
   tmp_get n (d_tmps d) = Some (Some (meta_add (cur_meta a (w_key w)) w)) ->
+  wf_w w ->
+  (forall c, c < ncols -> read_col d c (nth c (m_cur (cur_meta a (w_key w))) 0) (w_len w c) = Some (blk w c)) ->
   let s' := fst (apply s (ORename (RTmp p n) (RMeta p))) in
   InvS (Some (w_key w)) s' (adb_put a w) /\
   (d_suf d = None \/ d_suf d = Some (m_tot (meta_add (cur_meta a (w_key w)) w)) -> Inv s' (adb_put a w)) /\
   exists d', day_at s' p = Some d' /\ d_meta d' = Some (Some (meta_add (cur_meta a (w_key w)) w)).
 Proof.
-  intros I D K PO T. cbn [apply]. rewrite D, T. cbn [fst].
+  intros I D K PO T WFw NB. cbn [apply]. rewrite D, T. cbn [fst].
   set (m' := meta_add (cur_meta a (w_key w)) w) in *.
   set (g := fun d0 => set_tmps (set_meta d0 (Some (Some m'))) (tmp_del n (d_tmps d0))).
   pose proof (inv_lookup _ _ _ (w_key w) I) as IL.
@@ -87,14 +43,14 @@ Proof.
   destruct I as [S A].
   unfold adb_put, put_ok, cur_meta in *. destruct (lookup (w_key w) a) as [bl|] eqn:La.
   - (* the day has committed data *)
-    destruct IL as [V (NE & HM & _)]. apply negb_true_iff in PO. rewrite PO.
+    destruct IL as [V (NE & HM & _ & CO & WF)]. apply negb_true_iff in PO. rewrite PO.
     assert (M : m' = meta_of (bl ++ [w])) by (unfold m'; now rewrite meta_of_snoc).
     assert (G : forall st', (st' = Some (w_key w) \/ d_suf d = None \/ d_suf d = Some (m_tot m')) ->
                 InvS st' (upd_day s p g) (upd (w_key w) (fun bl => bl ++ [w]) a)).
     { intros st' Hst. split; cbn [f_days upd_day]; [now apply ksorted_upd|]. rewrite K.
       rewrite filter_upd_same; auto.
       - eapply aligned_upd2; eauto.
-        + intros k' a0 b (X & Y & [Z|Z]); [discriminate|]. repeat split; auto.
+        + intros k' a0 b (X & Y & [Z|Z] & CO' & WF'); [discriminate|]. repeat split; auto.
         + intros a0 b La0 Lb (X & Y & _). rewrite lookup_filter in La0 by auto. rewrite L in La0.
           unfold vis in La0; cbn [snd] in La0. assert (a0 = d) as -> by (destruct (visible d); congruence). clear La0. rewrite La in Lb. injection Lb as <-.
           repeat split.
@@ -102,6 +58,9 @@ Proof.
           * cbn. now rewrite M.
           * destruct Hst as [->|Hst]; [now left|right]. unfold suf_ok. cbn [g set_tmps set_meta d_suf].
             destruct Hst as [->| ->]; [now left|right]. now rewrite M, meta_of_tot.
+          * apply (cols_ok_ext d); [reflexivity|]. apply cols_ok_snoc; auto.
+            intros c Hc. rewrite <- meta_cur by auto. now apply NB.
+          * apply Forall_app; split; auto.
       - intros v Lv. rewrite Lv in L. injection L as ->. unfold vis; cbn [snd]. rewrite V.
         unfold visible; cbn. destruct (d_suf d); reflexivity. }
     split; [apply G; now left|]. split; [intros Hs; apply G; now right|]. exact Dafter.
@@ -113,8 +72,12 @@ Proof.
     { intros st'. split; cbn [f_days upd_day]; [now apply ksorted_upd|]. rewrite K.
       rewrite (filter_upd_appear vis (w_key w) g (f_days s) d); auto.
       - apply aligned_ins.
-        + eapply aligned_weaken; eauto. intros x y _ (X & Y & [Z|Z]); [discriminate|]. repeat split; auto.
-        + split; [discriminate|split; [reflexivity|right; left; exact SU]].
+        + eapply aligned_weaken; eauto. intros x y _ (X & Y & [Z|Z] & CO' & WF'); [discriminate|]. repeat split; auto.
+        + split; [discriminate|split; [reflexivity|split; [right; left; exact SU|split]]].
+          * apply (cols_ok_ext d); [reflexivity|]. apply (cols_ok_snoc d [] w).
+            -- intros pre x post E. destruct pre; discriminate.
+            -- intros c Hc. rewrite <- (meta_cur [] c) by auto. now apply NB.
+          * repeat constructor; auto.
       - unfold vis, visible; cbn. destruct (d_suf d); reflexivity. }
     split; [apply G|]. split; [intros _; apply G|]. exact Dafter.
 Qed.
@@ -130,8 +93,8 @@ Proof.
   rewrite filter_upd_same; auto.
   - eapply aligned_upd_l2; eauto.
     + now apply ksorted_filter.
-    + intros k' a0 b NK (X & Y & [Z|Z]); repeat split; auto. destruct Hst as [->| ->]; [discriminate|]. injection Z as Z. congruence.
-    + intros a0 b La0 (X & Y & _). rewrite lookup_filter in La0 by auto. rewrite L in La0.
+    + intros k' a0 b NK (X & Y & [Z|Z] & CO & WF); repeat split; auto. destruct Hst as [->| ->]; [discriminate|]. injection Z as Z. congruence.
+    + intros a0 b La0 (X & Y & _ & CO & WF). rewrite lookup_filter in La0 by auto. rewrite L in La0.
       destruct (vis (dp_key p, d)); [|discriminate]. injection La0 as <-.
       repeat split; auto. right. right. cbn. rewrite HM in Y. injection Y as ->. now rewrite meta_of_tot.
   - intros v Lv. rewrite Lv in L. injection L as ->. unfold vis, visible; cbn. rewrite HM. destruct (d_suf d); reflexivity.
